@@ -1,0 +1,14 @@
+//go:build verif
+
+package z80
+
+// VerifHook, when non-nil, is called at the linearization points of Run's
+// cancellation hand-off. It exists only in builds with the "verif" tag and is
+// used by the verification harness to observe (and gate) the goroutines.
+var VerifHook func(ev string)
+
+func vhook(ev string) {
+	if h := VerifHook; h != nil {
+		h(ev)
+	}
+}
